@@ -26,7 +26,9 @@ META = dict(
          "of the publisher's non-empty messages; with merge writing off the slice reaches the end of the log. Composes with C08/C11 byte-level theorems. The model is byte-exact and "
          "compared per consumer with a real logic.Group; an executable rendering of the property runs on the implementation's bytes. Found and fixed: merge-write delivered each batch to one subscriber only.",
     design_ref="§7 C01",
-    note="Proved for RTMP subscribers (rtmp_sub_contiguous) on the model of the whole fan-out; HTTP-FLV/WS-FLV/recording paths are in the model and under correspondence + oracle, their "
-         "theorems are listed in Props/C01.lean as they are added. Trusted: kernel, harness, model-code correspondence on generated scenarios + join-position corpus.",
+    note="Proved on the model of the whole fan-out: rtmp_sub_contiguous and flv_sub_contiguous (HTTP-FLV and WebSocket-FLV) for every reachable state, pubLog_is_published "
+         "(the log is exactly the accepted publisher's non-empty messages), live_part_decodes_rtmp / _flv (composition with C08 / C11: a specification reader decodes the live part "
+         "into the published messages), zero_len_dropped. The FLV recording and relay push are under correspondence + oracle only (no theorem yet). Trusted: kernel, harness, "
+         "model-code correspondence on generated scenarios + join-position corpus.",
     technique="Lean 4 invariant over event lists (history variables) + L1 differential correspondence",
 )
